@@ -355,7 +355,8 @@ class Value:
                 decimals = 8
         if decimals < 0:
             decimals = 0
-        balance = round(self.value / denominator, decimals)
+        # Divide exactly: the float quotient of two floats can be off by more than half of the smallest unit
+        balance = round(float(Fraction(self.value) / Fraction(repr(denominator))), decimals)
         cur_code = self.network.currency_code
         if currency_repr == 'symbol':
             cur_code = self.network.currency_symbol
